@@ -343,7 +343,7 @@ func (c *checker) checkFlow(x *execRun) {
 		c.probe("context_cancelled_during_or_before_flow")
 	}
 
-	if f.MutArg {
+	{
 		seen := false
 		for _, m := range []map[int]*span{task, pred} {
 			for _, s := range m {
@@ -355,8 +355,11 @@ func (c *checker) checkFlow(x *execRun) {
 		for _, v := range x.res {
 			seen = seen || v == progen.MutVal
 		}
-		if seen {
+		if seen && f.MutArg {
 			c.add("C15", "evaluation-order:operand-read-after-later-argument", "%s: a cff.Params argument that is a plain variable was read after a later argument's side effect had overwritten the variable (value %x reached the flow)", who, progen.MutVal)
+		} else if seen {
+			c.add("C15", "argument-read-after-the-call", "%s: a value the caller stores in its FallbackWith variable only after the directive has returned reached the flow (%x): the argument was not evaluated before the tasks started", who, progen.MutVal)
+			c.add("C11", "fallback-value-read-late", "%s: a value the caller stores in its FallbackWith variable only after the directive has returned reached the flow (%x)", who, progen.MutVal)
 		}
 	}
 	// at most once
@@ -499,11 +502,17 @@ func (c *checker) checkFlow(x *execRun) {
 			}
 		}
 		up := f.Upstream()
+		predCanceller := -1
+		if cancelBy >= 1000 {
+			predCanceller, cancelBy = cancelBy-1000, -1
+		}
 		for id, s := range task {
 			if s.start < cancelSeq {
 				continue
 			}
 			switch {
+			case predCanceller >= 0 && (id == predCanceller || up[id][predCanceller]):
+				c.add("C09", "started-after-cancel:dependent", "%s: the predicate of task %d cancelled the context (#%d); task %d, which can only start after that predicate, was still invoked (#%d)", who, predCanceller, cancelSeq, id, s.start)
 			case cancelBy >= 0 && up[id][cancelBy]:
 				c.add("C09", "started-after-cancel:dependent", "%s: task %d depends on task %d, which cancelled the context (#%d), and was still invoked (#%d)", who, id, cancelBy, cancelSeq, s.start)
 			case cancelBefore:
@@ -517,6 +526,8 @@ func (c *checker) checkFlow(x *execRun) {
 				continue
 			}
 			switch {
+			case predCanceller >= 0 && id != predCanceller && predUp(f, up, id)[predCanceller]:
+				c.add("C09", "started-after-cancel:dependent", "%s: predicate of task %d depends on task %d, whose predicate cancelled the context, and was still evaluated", who, id, predCanceller)
 			case cancelBy >= 0 && predUp(f, up, id)[cancelBy]:
 				c.add("C09", "started-after-cancel:dependent", "%s: predicate of task %d depends on task %d, which cancelled the context, and was still evaluated", who, id, cancelBy)
 			case cancelBefore:
@@ -571,7 +582,7 @@ func (c *checker) attribute(x *execRun, who string, task, pred map[int]*span, by
 		switch d.TaskOut[id] {
 		case progen.Err:
 			anyFailure, onlyPanics = true, false
-			if errors.Is(err, x.errOf(0, id, 0)) {
+			if errors.Is(err, x.taskErr(id)) {
 				ok = true
 			}
 		case progen.Panic:
@@ -788,6 +799,17 @@ func (c *checker) checkTaskEvents(x *execRun, who string, k int, name string, in
 			evs = append(evs, e)
 		}
 	}
+	if invoked && outcome == progen.Goexit {
+		// the function left by runtime.Goexit: nothing of what the protocol can say happened
+		// (in particular not Success); the current code reports TaskDone only
+		for _, kk := range []int{EmTaskSuccess, EmTaskError, EmTaskErrorRecovered, EmTaskPanic, EmTaskPanicRecovered} {
+			if cnt[kk] != 0 {
+				c.add("C18", "task-outcome-events", "%s emitter %d: task %s exited its goroutine (runtime.Goexit), yet it emitted %s: %v", who, k, name, emNames[kk], evs)
+				break
+			}
+		}
+		return
+	}
 	if invoked {
 		want := EmTaskSuccess
 		switch {
@@ -811,7 +833,7 @@ func (c *checker) checkTaskEvents(x *execRun, who string, k int, name string, in
 			}
 		}
 		// an event that says "recovered" while the directive fails with that very failure does not match what happened
-		if cnt[EmTaskErrorRecovered] > 0 && x.err != nil && errors.Is(x.err, x.errOf(kind, id, 0)) && !x.d.SharedErr {
+		if cnt[EmTaskErrorRecovered] > 0 && x.err != nil && errors.Is(x.err, x.fnErr(kind, id)) && !x.d.SharedErr {
 			c.add("C18", "task-outcome-events", "%s emitter %d: task %s emitted TaskErrorRecovered, yet the directive returned that task's error %v", who, k, name, x.err)
 		}
 		if cnt[EmTaskPanicRecovered] > 0 && x.err != nil {
@@ -826,8 +848,8 @@ func (c *checker) checkTaskEvents(x *execRun, who string, k int, name string, in
 		for _, e := range evs {
 			switch e.Kind {
 			case EmTaskError, EmTaskErrorRecovered:
-				if !safeEq(e.Err, x.errOf(kind, id, 0)) {
-					c.add("C18", "task-event-payload", "%s emitter %d: task %s: %s carries %v, the task returned %v", who, k, name, emNames[e.Kind], e.Err, x.errOf(kind, id, 0))
+				if !safeEq(e.Err, x.fnErr(kind, id)) {
+					c.add("C18", "task-event-payload", "%s emitter %d: task %s: %s carries %v, the task returned %v", who, k, name, emNames[e.Kind], e.Err, x.fnErr(kind, id))
 				}
 			case EmTaskPanic, EmTaskPanicRecovered:
 				if !panicEq(e.PV, x.panicVal(kind, id, 0)) {
@@ -840,6 +862,14 @@ func (c *checker) checkTaskEvents(x *execRun, who string, k int, name string, in
 			c.add("C18", "task-skipped-count", "%s emitter %d: directive returned nil, task %s was not invoked, but it received %d TaskSkipped events: %v", who, k, name, cnt[EmTaskSkipped], evs)
 		}
 	}
+}
+
+// fnErr is the error value the user function (kind, id) returns when it fails.
+func (x *execRun) fnErr(kind, id int) error {
+	if kind == 0 {
+		return x.taskErr(id)
+	}
+	return x.errOf(kind, id, 0)
 }
 
 func (c *checker) checkStacksEqual(x *execRun, who string, n int) {
@@ -857,7 +887,7 @@ func (c *checker) checkStacksEqual(x *execRun, who string, n int) {
 
 func (c *checker) checkEmittersFlow(x *execRun, who string, task map[int]*span, byID map[int]*progen.TaskP, goexit bool) {
 	f := x.prog.Flow
-	if f.Emitters == 0 || goexit {
+	if f.Emitters == 0 {
 		return
 	}
 	for k := 0; k < f.Emitters; k++ {
@@ -971,7 +1001,7 @@ func (c *checker) checkPar(x *execRun) {
 			switch d.TaskOut[t.ID] {
 			case progen.Err:
 				fired++
-				wantErrs = append(wantErrs, x.errOf(0, t.ID, 0))
+				wantErrs = append(wantErrs, x.taskErr(t.ID))
 			case progen.Panic:
 				fired++
 				wantPanics = append(wantPanics, x.panicVal(0, t.ID, 0))
@@ -1256,7 +1286,7 @@ func (c *checker) checkPar(x *execRun) {
 		}
 	}
 	// emitters
-	if p.Emitters > 0 && !goexit {
+	if p.Emitters > 0 {
 		for k := 0; k < p.Emitters; k++ {
 			c.checkDirectiveEvents(x, who, k, p.InstrPar)
 			if x.prog.AutoInstr {
